@@ -96,6 +96,75 @@ def infeasible(ctx, n):
     return out
 
 
+DIAGNOSTICS = PARSE_ERRORS + ("LarkError", "SyntaxParsingError", "SemanticError", "ParsingError", "InvalidAttributeError", "DuplicateDefinitionError")
+
+
+def oddities(rng, n):
+    """grammatical texts at the edges of what the preprocessor, the header and the attribute readers accept: macros that
+    call each other in a cycle or themselves (once, twice, three times a pass), nested macros that do end, resolutions
+    from 0 to a day, gaps of thousands of years in every dependency spelling, several allocate statements on one task
+    with and without alternatives.  (text, must_be_accepted)"""
+    out = []
+    H = 'project p "P" 2025-01-06 +%s { timezone "Etc/UTC" %s }\nresource r "R" {}\nresource s "S" {}\nresource t "T" {}\n'
+    for _ in range(n):
+        k = rng.randint(0, 3)
+        dur = rng.choice(["2w", "4w", "10d"])
+        if k == 0:
+            kind = rng.randint(0, 6)
+            eff = rng.choice([2, 6, 11])
+            if kind == 0:
+                m = 'macro who [ allocate r ]\nmacro work [ effort %dh ${who} ]\n' % eff
+                body, ok = 'task a "A" { ${work} }\ntask b "B" { ${work} depends !a }\n', True
+            elif kind == 1:
+                m = 'macro work [ effort %dh ${rest} ]\nmacro rest [ ${work} ]\n' % eff
+                body, ok = 'task a "A" { allocate r ${work} }\n', False
+            elif kind == 2:
+                m = 'macro x1 [ ${x2} ]\nmacro x2 [ priority 500 ${x3} ]\nmacro x3 [ ${x1} ]\n'
+                body, ok = 'task a "A" { effort %dh allocate r ${x%d} }\n' % (eff, rng.randint(1, 3)), False
+            elif kind == 3:
+                m = 'macro more [ priority 600 ${more} ]\n'
+                body, ok = 'task a "A" { effort %dh allocate r ${more} }\n' % eff, False
+            elif kind == 4:
+                m = 'macro dbl [ ${dbl} %s ${dbl} ]\n' % rng.choice(["", "priority 400", 'note "x"'])
+                body, ok = 'task a "A" { effort %dh allocate r ${dbl} }\n' % eff, False
+            elif kind == 5:
+                m = 'macro tri [ ${tri} ${tri} ${tri} ]\nmacro fine [ allocate r ]\n'
+                body, ok = 'task a "A" { effort %dh ${fine} }\ntask b "B" { effort 2h allocate s ${tri} }\n' % eff, False
+            else:
+                m = 'macro arg [ effort ${1}h ${arg ${1}} ]\n'
+                body, ok = 'task a "A" { allocate r ${arg 3} }\n', False
+            text = m + H % (dur, "") + body if rng.random() < 0.5 else H % (dur, "") + m + body
+            out.append((text, ok, "macros%d" % kind))
+        elif k == 1:
+            res = rng.choice(["0min", "0h", "0.001min", "0d", "1min", "5min", "15min", "30min", "60min", "1h", "2h", "1d"])
+            text = H % (dur, "timingresolution " + res) + 'task a "A" { effort 4h allocate r }\ntask b "B" { effort 3h allocate r depends !a }\n'
+            out.append((text, None, "resolution:" + res))
+        elif k == 2:
+            gap = rng.choice(["4000000d", "99999999w", "600000w", "90000000h", "3000y", "40000m"])
+            what = rng.choice(["gapduration", "gaplength", "maxgapduration"])
+            opt = "%s %s%s" % (what, gap, rng.choice(["", " onstart", " onend"]))
+            form = rng.randint(0, 3)
+            if form == 0:
+                body = 'task a "A" { effort 4h allocate r }\ntask b "B" { effort 3h allocate s depends !a { %s } }\n' % opt
+            elif form == 1:
+                body = 'task a "A" { effort 4h allocate r precedes !b { %s } }\ntask b "B" { effort 3h allocate s }\n' % opt
+            elif form == 2:
+                body = 'task a "A" { effort 4h allocate r scheduling alap precedes !b { %s } }\ntask b "B" { effort 3h allocate s scheduling alap end 2025-01-15 }\n' % opt
+            else:
+                body = 'task g "G" { task a "A" { effort 4h allocate r } }\ntask b "B" { start 2025-01-07 depends !g { %s } }\n' % opt
+            out.append((H % (dur, "") + body, None, "hugegap:%s:%d" % (what, form)))
+        else:
+            parts = rng.choice([["allocate r", "allocate s"], ["allocate r", "allocate s { alternative t }"], ["allocate s { alternative t }", "allocate r"],
+                                ["allocate r { alternative s }", "allocate s { alternative t }"], ["allocate r, s { alternative t }"],
+                                ["allocate r { alternative s, t }", "allocate r"], ["allocate r", "allocate r"]])
+            mid = rng.choice(["", "priority 700 ", 'note "n" '])
+            body = 'task a "A" { effort 4h %s %s%s }\ntask b "B" { effort 3h allocate t depends !a }\n' % (parts[0], mid, " ".join(parts[1:]))
+            if rng.random() < 0.3:
+                body = 'task g "G" { %s task a "A" { effort 4h %s } }\n' % (parts[0], " ".join(parts[1:]) or "priority 300")
+            out.append((H % (dur, "") + body, None, "allocs:%d" % len(parts)))
+    return out
+
+
 def corrupt(rng, text):
     toks = text.split(" ")
     k = rng.randint(0, 3)
@@ -141,12 +210,31 @@ def run(ctx):
                 for name, st in sc["tasks"].items():
                     if st["leaf"] and st["sched"] and (st["start"] is None or st["end"] is None or st["start"] > st["end"]):
                         bad.append({"finding": {"what": "a corrupted text was accepted and produced a scheduled task without start <= end", "task": name}, "project": t})
-        elif r.get("exc") in PARSE_ERRORS or "worker_error" not in r and r.get("exc") not in ("Timeout", "RecursionError", "IndexError", "KeyError", "AttributeError", "TypeError", "ZeroDivisionError", "AssertionError"):
+        elif r.get("exc") in PARSE_ERRORS or "worker_error" not in r and r.get("exc") not in ("Timeout", "RecursionError", "IndexError", "KeyError", "AttributeError", "TypeError", "ZeroDivisionError", "AssertionError", "OverflowError", "MemoryError", "UnboundLocalError", "NameError"):
             stats["malformed:rejected:" + str(r.get("exc"))] += 1
         else:
             stats["malformed:crash:" + str(r.get("exc", "worker"))] += 1
             bad.append({"finding": {"what": "a corrupted text made the parser/scheduler crash or hang instead of reporting a parse error",
                                     "exception": r.get("exc"), "message": r.get("msg"), "where": r.get("where")}, "project": t})
+    # grammatical oddities: the outcome is a result or a diagnostic, within seconds
+    odd = oddities(ctx.rng, ctx.n(160, 1200))
+    res3 = common.run_workers(ctx, "w_sched", [{"text": t, "timeout": 30, "ledger": False} for t, _, _ in odd])
+    for (t, must, fam), r in zip(odd, res3):
+        stats["odd:" + fam.split(":")[0]] += 1
+        if r.get("ok"):
+            stats["odd:accepted"] += 1
+            if must is False:
+                bad.append({"finding": {"what": "a text whose macros never stop calling each other was accepted", "family": fam}, "project": t})
+            for sc in r["obs"]["scenarios"][:1]:
+                for name, st in sc["tasks"].items():
+                    if st["leaf"] and st["sched"] and (st["start"] is None or st["end"] is None or st["start"] > st["end"]):
+                        bad.append({"finding": {"what": "an unusual but grammatical text produced a scheduled task without start <= end", "task": name, "family": fam}, "project": t})
+        elif "worker_error" not in r and r.get("exc") in DIAGNOSTICS and must is not True:
+            stats["odd:rejected:" + str(r.get("exc"))] += 1
+        else:
+            stats["odd:crash:" + str(r.get("exc", "worker"))] += 1
+            bad.append({"finding": {"what": "a grammatical text made the preprocessor/parser/scheduler crash or hang instead of giving a schedule or a diagnostic" if must is not True else "a valid text with nested macros was not scheduled",
+                                    "family": fam, "exception": r.get("exc", r.get("worker_error")), "message": r.get("msg"), "where": r.get("where")}, "project": t})
     violations = []
     seen = set()
     for b in bad:
@@ -160,8 +248,8 @@ def run(ctx):
     if not violations and failing:
         violations.append({"no_input": True, "replay": common.write_replay(ctx, {"property": "C11", "kind": "proof obligation no longer checks; no failing input found", "failing_obligations": failing})})
     cov = {"obligations": nob, "discharged": ndis, "checker_cmd": "tools/coqbuild.sh (coqc 8.16.1 full .vo build)", "trusted_base": common.TRUSTED, "files": files,
-           "traces_validated_against_impl": len(aps) + len(texts), "input_distribution": dict(stats),
-           "rule": "grammatical infeasible projects (cycles, self-dependencies, pinned dates before/after the horizon, never-working resources, huge and one-minute efforts, huge gaps, ALAP deadlines outside the horizon, work pinned too close to the end of the horizon, alternatives on the infeasible task, resource groups in allocations, 'flags contiguous', resources with efficiency 0, horizons ending inside working hours, efforts of 99999999h) in isolated workers with a time limit; corrupted variants (token deletion, duplication, swap, replacement) of valid texts: the outcome must be a result or a parse error. The fault-injection part is testing and is labelled so: Lark, the transformer and Python exceptions outside slot indexing are not modelled.",
+           "traces_validated_against_impl": len(aps) + len(texts) + len(odd), "input_distribution": dict(stats),
+           "rule": "grammatical infeasible projects (cycles, self-dependencies, pinned dates before/after the horizon, never-working resources, huge and one-minute efforts, huge gaps, ALAP deadlines outside the horizon, work pinned too close to the end of the horizon, alternatives on the infeasible task, resource groups in allocations, 'flags contiguous', resources with efficiency 0, horizons ending inside working hours, efforts of 99999999h) in isolated workers with a time limit; corrupted variants (token deletion, duplication, swap, replacement) of valid texts: the outcome must be a result or a parse error; grammatical oddities (macros calling each other in cycles or themselves one to three times a pass, nested macros that end, timing resolutions from 0 to a day, gaps of thousands of years in every dependency spelling and direction, several allocate statements with and without alternatives): a result or a diagnostic within 30 s. The fault-injection part is testing and is labelled so: Lark, the transformer and Python exceptions outside slot indexing are not modelled.",
            "samples": [{"family": aps[0]["_family"], "project": projects.render(aps[0])[:1000]}, {"malformed": texts[0][:400]}]}
     common.finish(ctx, "proof", cov, violations,
                   ["partial: the theorems cover termination of the model (structural fuel) and that no slot outside the horizon is touched; everything in front of the scheduler (Lark, transformer) is exercised by fault injection only"])
